@@ -245,6 +245,50 @@ def rule_guards(ctx):
         ctx.ob(R, "Task variants", ok, "Main holds Arc<CancelGuard>, Background holds Arc<TerminateGuard>" if ok else "Task variants: %s" % tys)
 
 
+def rule_signal_once(ctx):
+    R = "C17.9"
+    ctx.rule(R, "the one-shot signal every wait in the scope runtime rests on (`terminated`, context cancellation): created with no permit, fired only by closing the semaphore, awaited by an acquire that can only fail once closed, polled by is_closed - a signal that can be consumed, pre-fired or re-armed lets a scope return before its tasks did or hides a cancellation")
+    ONCE = "zksync_concurrency::signal::Once"
+    def body(q):
+        fs = ctx.F.by_qname.get(q) or []
+        return fs[0] if fs else getattr(ctx.F, "helpers", {}).get(q)
+    n = 0
+    f = body(ONCE + "::new")
+    if f is not None:
+        T = ctx.T(f)
+        a = [T.args_of(c) for c in T.calls() if c["q"].endswith("Semaphore::new") or c["q"].endswith("Semaphore::const_new")]
+        ok = len(a) == 1 and a[0][0] == ("const", 0)
+        n += 1
+        ctx.ob(R, "Once::new", ok, "Semaphore::new(0)" if ok else "the signal is not created with zero permits: %s" % [show(x) for y in a for x in y], f.loc())
+    f = body(ONCE + "::send")
+    if f is not None:
+        qs = [c["q"] for c in ctx.T(f).calls()]
+        ok = any(q.endswith("Semaphore::close") for q in qs) and not any(q.endswith(("Semaphore::add_permits", "Semaphore::forget_permits")) for q in qs)
+        n += 1
+        ctx.ob(R, "Once::send", ok, "closes the semaphore" if ok else "Once::send does not close the semaphore (calls: %s)" % qs, f.loc())
+    f = body(ONCE + "::try_recv")
+    if f is not None:
+        t = Inliner(ctx).ret_term(f)
+        ok = t is not None and t[0] == "call" and t[1].endswith("Semaphore::is_closed")
+        n += 1
+        ctx.ob(R, "Once::try_recv", ok, "is_closed()" if ok else "Once::try_recv = %s" % (show(t)[:80] if t is not None else None), f.loc())
+    fs = [g for g in ctx.F.fns if g.qname.startswith(ONCE + "::cancel_safe_recv") and g.kind == "coroutine"]
+    for g in fs:
+        qs = [c["q"] for c in ctx.T(g).calls()]
+        ok = any(q.endswith("Semaphore::acquire") for q in qs) and not any(q.endswith(("Semaphore::try_acquire", "Semaphore::is_closed")) for q in qs)
+        n += 1
+        ctx.ob(R, "Once::cancel_safe_recv", ok, "awaits acquire() (returns only once the semaphore is closed)" if ok else "the receive side does not await acquire(): %s" % qs, g.loc())
+    # nobody else touches the semaphore: the field is private to the signal module, whose only items are these methods
+    ad = ctx.F.adts.get(ONCE)
+    vis = [fl.get("vis") for v in (ad or {}).get("variants", []) for fl in v["fields"]]
+    okv = bool(vis) and all(v == "in:zksync_concurrency::signal" for v in vis)
+    extra = sorted(set(c["q"].rsplit("::", 1)[-1] for g in ctx.F.fns if g.qname.startswith(("zksync_concurrency::signal::", "<zksync_concurrency::signal::")) and not g.in_testonly()
+                       for c in ctx.T(g).calls() if "Semaphore::" in c["q"] and c["q"].rsplit("::", 1)[-1] not in ("new", "close", "acquire", "is_closed")))
+    ctx.ob(R, "semaphore private to the signal", okv and not extra, "the semaphore is a private field of signal::Once; the module uses only new / close / acquire / is_closed on it" if okv and not extra else
+           ("the signal's semaphore is visible outside the signal module (%s)" % vis if not okv else "the signal module also calls Semaphore::%s: permits can be added or consumed" % extra))
+    ctx.floor(R, "signal::Once methods decided", n, 4)
+
+
 def rule_result_mapping(ctx):
     R = "C17.7"
     ctx.rule(R, "result mapping (table): no recorded failure -> the root task's result; recorded error -> Err(that error); recorded panic -> panic re-raised")
@@ -276,4 +320,4 @@ def rule_result_mapping(ctx):
         ctx.ob(R, "%s Ok payload" % name, okt, "Ok carries the joined root task's value" if okt else "Ok does not carry the root task's result", f.loc())
 
 
-RULES = [("C17.1", rule_join), ("C17.2", rule_spawn_wrapping), ("C17.3", rule_who_spawns), ("C17.4", rule_set_err), ("C17.8", rule_set_err_atomic), ("C17.5", rule_guards), ("C17.7", rule_result_mapping)]
+RULES = [("C17.1", rule_join), ("C17.2", rule_spawn_wrapping), ("C17.3", rule_who_spawns), ("C17.4", rule_set_err), ("C17.8", rule_set_err_atomic), ("C17.5", rule_guards), ("C17.7", rule_result_mapping), ("C17.9", rule_signal_once)]
